@@ -11,6 +11,8 @@ where
     T: Future + Send + 'static,
     T::Output: Send + 'static,
 {
+    #[cfg(feature = "verif-hooks")]
+    let task = crate::verif_hooks::wrap_spawned(task);
     #[cfg(feature = "tokio-runtime")]
     let result = tokio::task::spawn(task).into();
     #[cfg(feature = "async-std-runtime")]
